@@ -133,8 +133,12 @@ def group_submissions(rng, forms, reference_ok):
     return subs
 
 
-def run_repl(cli, text):
-    p = subprocess.run([cli], input=text.encode(), stdout=subprocess.PIPE, stderr=subprocess.PIPE, timeout=900)
+def run_repl(cli, text, timeout=300):
+    """(exit status, stdout, stderr) of the REPL binary fed `text` over a pipe; ("timeout", "", "") when it does not end within the wall-clock watchdog"""
+    try:
+        p = subprocess.run([cli], input=text.encode(), stdout=subprocess.PIPE, stderr=subprocess.PIPE, timeout=timeout)
+    except subprocess.TimeoutExpired:
+        return "timeout", "", ""
     return p.returncode, p.stdout.decode("utf8", "replace"), p.stderr.decode("utf8", "replace")
 
 
@@ -193,9 +197,15 @@ def run(tier, seed):
             # submits the first as soon as it is closed
             variants.append("\n".join(" ".join(split_inside(rng, f) for f in grp) for grp in subs) + "\n")
         inputs.append(variants)
-    flat = [(i, k, v) for i, vs in enumerate(inputs) for k, v in enumerate(vs)]
+    # a session with a form that used up the step budget of the library interface is not judged (below) and is not given to the REPL either, which has no budget
+    bounded = [rec is not None and "steps" in rec and not any(s.get("fuel_exhausted") for s in rec["steps"]) for rec in drecs]
+    flat = [(i, k, v) for i, vs in enumerate(inputs) if bounded[i] for k, v in enumerate(vs)]
     with ThreadPoolExecutor(max_workers=core.NCPU) as ex:
         outs = list(ex.map(lambda x: run_repl(cli, x[2]), flat))
+    # the wall-clock watchdog decides nothing by itself: a session that did not end is run once more, alone, with a longer watchdog
+    for n, ((i, k, v), o) in enumerate(zip(flat, outs)):
+        if o[0] == "timeout":
+            outs[n] = run_repl(cli, v, timeout=900)
     per = {}
     for (i, k, v), o in zip(flat, outs):
         per.setdefault(i, []).append((v, o))
@@ -227,6 +237,11 @@ def run(tier, seed):
                     bad_ref = True
         if bad_ref:
             ctx.count("reference_panicked_(C07_matter)"); ctx.inconclusive_cases += 1; continue
+        if any(o[0] == "timeout" for v, o in per[i]):
+            # every form of the session ends within the step budget through the library interface, yet the REPL did not end twice (5 and 15 minutes)
+            ctx.violation({"what": "the REPL did not finish a session whose forms all terminate when evaluated one after another", "kind": "hang", "dedupe": "hang"},
+                          {"input": [v for v, o in per[i] if o[0] == "timeout"][0], "forms": forms})
+            continue
         ok = True
         first = None
         for v, (rc, out, err) in per[i]:
